@@ -19,6 +19,7 @@
   parameters: that part is checked on every run against the real code (T3), not proven.
 -/
 import RumaModel.Lemmas.HtmlIdem
+import RumaModel.Lemmas.HtmlSorted
 import RumaModel.Spec.HtmlDoc
 import RumaModel.Lemmas.HtmlPlain
 import RumaModel.Lemmas.HtmlTables15
@@ -64,6 +65,31 @@ theorem clean_establishes_clean (L : Lists) (c : Cfg) (hs : Settled L c) (roots 
 theorem clean_idempotent_of (L : Lists) (c : Cfg) (hs : Settled L c) (roots : List Node) :
     clean L c (clean L c roots) = clean L c roots :=
   clean_fixes_allowed L c 0 _ (clean_establishes_clean L c hs roots)
+
+/-- Idempotence in general form. Attribute lists are ordered sets (`SortedTree`: what the parser
+hands over — the element's `BTreeSet<Attribute>`); the configuration's replacement tables are
+settled in the weaker sense `SettledW`: an element that may remain is not itself replaced, none of
+the attributes that may remain on it is renamed, `class` carries no scheme restriction (decidable:
+`settledWB`; implied by `Settled`). Then sanitizing the output again changes nothing. This covers
+builder configurations with attribute replacement tables on allowed elements. -/
+theorem clean_idempotent_of_sorted (L : Lists) (c : Cfg) (hs : SettledW L c) (roots : List Node)
+    (hw : SortedTree roots) : clean L c (clean L c roots) = clean L c roots :=
+  clean_fixes_allowed L c 0 _ (clean_clean_of_sorted L c hs roots hw)
+
+/-- The general hypotheses on a configuration of the public builder that is not settled in the
+strong sense: strict mode with `replace_attributes(span: color → data-mx-color, Add)` and
+`replace_elements(center → div, Add)`; and on a tree: `<span color="red" title="t">`. -/
+example :
+    let c : Cfg := { mode := some Mode.strict, replaceAttrs := some ⟨false, [(bs "span", [(bs "color", bs "data-mx-color")])]⟩, replaceElements := some ⟨false, [(bs "center", bs "div")]⟩ }
+    settledWB lists c = true ∧ settledB lists c = false ∧
+    sortedForestB [.elem (bs "span") [⟨none, [], bs "color", bs "red"⟩, ⟨none, [], bs "title", bs "t"⟩] []] = true ∧
+    clean lists c [.elem (bs "span") [⟨none, [], bs "color", bs "red"⟩, ⟨none, [], bs "title", bs "t"⟩] []] =
+      [.elem (bs "span") [⟨none, [], bs "data-mx-color", bs "red"⟩] []] := by
+  refine ⟨?_, ?_, ?_, ?_⟩ <;> decide +kernel
+
+/-- `Settled` implies `SettledW`, so the general form covers the standard configurations too. -/
+theorem settled_implies_general (L : Lists) (c : Cfg) (h : Settled L c) : SettledW L c :=
+  settledW_of_settled L c h
 
 /-- html5ever as a parameter. `reparse` stands for "serialize, then parse again" (external code,
 not modelled); the only assumption used is that it maps a clean forest to a clean forest — what
@@ -377,6 +403,8 @@ end Ruma.Props.C15
 #print axioms Ruma.Props.C15.clean_only_rewrites
 #print axioms Ruma.Props.C15.clean_establishes_clean
 #print axioms Ruma.Props.C15.clean_idempotent_of
+#print axioms Ruma.Props.C15.clean_idempotent_of_sorted
+#print axioms Ruma.Props.C15.settled_implies_general
 #print axioms Ruma.Props.C15.clean_reparse_fixpoint
 #print axioms Ruma.Props.C15.not_idempotent_chained_replacement
 #print axioms Ruma.Props.C15.standard_settled
